@@ -26,19 +26,39 @@ TRUSTED = ["registration parity of mapping and variable count (decided under C14
 ACCEPT_BASE = ('num_binary_variables', '_num_binary_variables', '_next_label')
 
 
-def _base_ok(e, selfn):
+def next_label_sound(prog):
+    """`_next_label` bounds every mapped label only if whoever replaces the mapping of an object wholesale also sets that
+    object's `_next_label` (on the reference tree set_mapping / set_reverse_mapping and PUSO._create_pubo do not)."""
+    if getattr(prog, '_next_label_sound', None) is None:
+        from ..fields import field_writes
+        ok = True
+        for fn in prog.all_funcs():
+            if fn.name == '__init__':
+                continue
+            ws = field_writes(fn.node, {'_mapping', '_next_label'})
+            objs = {w[1] for w in ws if w[2] == '_mapping' and w[3] == 'assign'}
+            for o in objs:
+                if not any(w[1] == o and w[2] == '_next_label' for w in ws):
+                    ok = False
+        prog._next_label_sound = ok
+    return prog._next_label_sound
+
+
+def _base_ok(e, selfn, prog=None):
     """Is expression e a bound of every mapped label (given C14 parity)?"""
     if isinstance(e, ast.Attribute) and is_name(e.value, selfn) and e.attr in ACCEPT_BASE:
+        if e.attr == '_next_label' and prog is not None and not next_label_sound(prog):
+            return False
         return True
     if isinstance(e, ast.Call) and is_name(e.func, 'len') and len(e.args) == 1 and \
             src(e.args[0]) in ('%s._mapping' % selfn, '%s._reverse_mapping' % selfn):
         return True
     if isinstance(e, ast.Call) and is_name(e.func, 'max') and e.args:
-        return any(_base_ok(a, selfn) for a in e.args)
+        return any(_base_ok(a, selfn, prog) for a in e.args)
     if isinstance(e, ast.BinOp) and isinstance(e.op, ast.Add):
         for a, b in ((e.left, e.right), (e.right, e.left)):
             c = const_num(b)
-            if c is not None and c >= 0 and _base_ok(a, selfn):
+            if c is not None and c >= 0 and _base_ok(a, selfn, prog):
                 return True
     return False
 
@@ -85,12 +105,13 @@ def ancilla_base_instances(ctx, rid):
         return None
     name, outside = cands[0]
     for s, v in outside:
-        ok = isinstance(v, ast.AST) and _base_ok(v, selfn)
+        ok = isinstance(v, ast.AST) and _base_ok(v, selfn, ctx.prog)
         ctx.inst(rid, fn, s, ok,
                  "ancilla labels start at %s, a bound of every mapped label" % src(v) if ok else
                  "ancilla labels start at `%s`, which is not a bound of every label in the mapping "
-                 "(accepted: self.num_binary_variables, len(self._mapping), self._next_label, max/+c of "
-                 "these): an ancilla can collide with a mapped variable that no longer occurs in a term"
+                 "(accepted: self.num_binary_variables, len(self._mapping), max/+c of these; self._next_label only if every "
+                 "wholesale writer of the mapping also sets it - set_mapping and the hand-over to the temporary PUBO of a "
+                 "spin model do not): an ancilla can collide with a mapped variable"
                  % (src(v) if isinstance(v, ast.AST) else v))
     return name
 
